@@ -128,6 +128,14 @@ CHECKS = {
          "as_numpy_iterator for threads <,=,> #shards, all supported compressions, uneven shards, early close; the model's outputs under pseudo-random schedules are compared with both.",
     note="PARTIAL: Rust thread interleavings cannot be controlled or observed step by step from the harness, so the tie between M-PMAP and the Rust code is at the level of outputs and thread counts only; std::sync::mpsc FIFO/disconnect semantics are a specified external.",
     ref="DESIGN.md §5 C15, Appendix A.3"),
+ "C01": dict(
+    technique="Lean 4 proof (little-endian element round trip for every width and bit pattern; byte-order decision for every tag x host; C-order flatten/reshape for every rank, shape and memory layout; whole-attribute round trip; two's complement and safe integer widening; theorems over tables generated from the source: TFRecord encode/decode per dtype, compress/decompress/Rust decoder arms) + byte-level correspondence of stored FlatBuffers vectors with the model + bit-exact end-to-end runs over formats x compressions x dtypes x shapes x presentations x readers",
+    text="C01_le_roundtrip, C01_le_injective, C01_stored_is_little_endian, C01_swaps_iff_memory_big_endian, C01_flatten_reshape, C01_c_order_bijection, C01_attribute_roundtrip, C01_zero_width_stores_nothing, "
+         "C01_int_pattern_roundtrip, C01_safe_int_casts_preserve_value, C01_tfrec_ints_widen_exactly, C01_tfrec_float_is_float32, C01_codecs_paired, C01_pipeline. "
+         "What is sedpack's own in the write->read path is proved for all inputs; the containers and codecs are external laws (hypotheses of C01_pipeline) exercised end to end on every run: "
+         "every element's bit pattern is compared after a round trip through every reader; for FlatBuffers the byte vector found in the shard by an independent walk must equal the model's encodeAttr.",
+    note="PARTIAL in the sense that FlatBuffers / numpy / TensorFlow / compression libraries are specified externals, validated by the end-to-end runs but not proved. Two known findings (npz trailing NULs, tfrec float32 signalling NaNs) are listed in known_findings.json.",
+    ref="DESIGN.md §5 C01"),
  "C07": dict(
     technique="Lean 4 proof (corollaries of exactly-once: a complete pass delivers every source element; lazy pool with a failing input: no normal end, no deadlock, finite schedules, terminal state = re-raised; Rust: dead worker reported, pinned semantics' truncation witnessed by decide) + fault planting under a watchdog over every interface, and scheduler-controlled pool runs",
     text="C07_pool_fault_raises, C07_complete_pass_delivers_everything, C07_round_robin_delivers_everything, C07_rust_dead_worker_is_reported, C07_fstep_eq_step, C07_rust_original_truncates / _repaired_raises. "
